@@ -579,8 +579,37 @@ def judge(spec):
 
 
 def recheck(case):
+    if isinstance(case, dict) and case.get("mode") == "renderer":
+        from . import c08
+        probs, _ = c08.judge_renderer(case)
+        return [("C03/renderer-skip/" + s.split("/", 1)[1], w) for s, w in probs if _skip_relevant(s)]
     probs, _ = judge(case)
     return [("C03/" + s, w) for s, w in probs]
+
+
+def _skip_relevant(sig):
+    # compression soundness and record identity only; size accounting is C08's business
+    return sig.startswith(("renderer/refparse", "renderer/kept-sets-differ", "renderer/crash", "renderer/tsig"))
+
+
+def work_skip(arg, col):
+    """Renderer driven directly with a size limit: record sets that do not fit raise TooBig
+    and are skipped, rendering continues.  Every pointer emitted afterwards must still
+    target an earlier occurrence of its suffix (no pointer into rolled-back bytes)."""
+    from . import c08
+    mi, lo, hi = arg
+    for L in range(lo, hi):
+        for tsig in (0, 3):
+            case = {"mode": "renderer", "msg": mi, "L": L, "tsig": tsig}
+            probs, info = c08.judge_renderer(case)
+            col.count("evaluations")
+            col.count("evaluations_renderer_skip")
+            probs = [(s_, w_) for s_, w_ in probs if _skip_relevant(s_)]
+            col.outcome("renderer-skip:%s" % (probs[0][0] if probs else info.get("outcome", "ok")))
+            if info.get("outcome") == "renderer-kept-some":
+                col.nontrivial(("skip", mi, L, tsig))
+            for s_, w_ in probs:
+                col.violation("C03/renderer-skip/" + s_.split("/", 1)[1], "%s (message %d, max_size %d, tsig variant %d)" % (w_, mi, L, tsig), case)
 
 
 # ------------------------------------------------------------------ enumeration
@@ -838,6 +867,15 @@ def run(ctx):
         "large_target_offsets": [hex(lo), hex(hi - 1)], "large_names": LATE_NAMES,
         "tasks": len(tasks),
     })
+    # size-limited Renderer that skips what does not fit (compression soundness after a rollback)
+    from . import c08
+    nmsg = len(c08.MESSAGES)
+    step = ctx.pick(3, 1)
+    for mi in range(0, nmsg, step):
+        full = c08.base_facts(mi)["full"]
+        for lo in range(512, full + 20, 120):
+            tasks.append((work_skip, (mi, lo, min(lo + 120, full + 20))))
+    ctx.extra["renderer_skip_messages"] = list(range(0, nmsg, step))
     ctx.pmap(_dispatch, tasks)
 
 
